@@ -264,6 +264,10 @@ func runC11(c *wk.Ctx) {
 			}
 		}
 	}
+	if c.Variant == "plain" && c.Mine(6) {
+		c.Begin(6, "refused calls between a run's signals and its step")
+		c11RefusedBetween(c)
+	}
 	if c.Mine(5) {
 		c.Begin(5, "the step-data initialiser panics for one run")
 		c11InitializerPanics(c)
@@ -875,6 +879,124 @@ func c11ManyRuns(c *wk.Ctx, others int) {
 	}
 	if want := int64(others + 2); inits.Load() != want {
 		c.Violation("C11:initializer-count:many-runs", fmt.Sprintf("%d run IDs were used, the initialiser ran %d times", want, inits.Load()), wit)
+	}
+}
+
+// c11RefusedBetween: a run whose first signal has created its step data is then addressed by calls that are REFUSED -
+// a step call whose input the schema rejects (through the plugin schema with wire input, and on the step itself with a
+// native value), a signal with invalid data, an unknown signal, an unknown step under the same run ID - in every
+// order of 1..3 of them, before more signals and the valid step call. A refused call is an error for its caller and
+// nothing else: the run keeps the step data it has, the initialiser runs once per run ID.
+func c11RefusedBetween(c *wk.Ctx) {
+	in := func() *schema.ScopeSchema {
+		return gen.Build(&gen.Shape{Kind: gen.KScope, Root: "In", Objects: []*gen.Shape{{Kind: gen.KObject, ID: "In", Props: []*gen.Prop{{Name: "n", T: &gen.Shape{Kind: gen.KInt}, Required: true}}}}}).(*schema.ScopeSchema)
+	}
+	refusals := []string{"step: wire input rejected", "step.Call: native input rejected", "step.Call: nil input", "signal: data rejected", "signal: unknown id", "step: unknown id", "step: valid input, undeclared output"}
+	var seqs [][]int
+	for a := range refusals {
+		seqs = append(seqs, []int{a})
+		for b := range refusals {
+			if b != a {
+				seqs = append(seqs, []int{a, b})
+			}
+		}
+	}
+	seqs = append(seqs, []int{0, 1, 3}, []int{3, 1, 0}, []int{1, 1, 1}, []int{6, 1, 3})
+	for si, seq := range seqs {
+		var inits atomic.Int64
+		var mu sync.Mutex
+		saw := map[string][]int64{}
+		badOutput := false
+		step := schema.NewCallableStepWithSignals[*c11StepData, any]("work", in(),
+			map[string]*schema.StepOutputSchema{"done": schema.NewStepOutputSchema(in(), nil, false)},
+			map[string]schema.CallableSignal{"note": schema.NewCallableSignal[*c11StepData, any]("note", in(), nil, func(hctx context.Context, d *c11StepData, _ any) {
+				mu.Lock()
+				saw[c11Run(hctx)] = append(saw[c11Run(hctx)], d.token)
+				mu.Unlock()
+			})}, nil, nil,
+			func() *c11StepData { return &c11StepData{token: inits.Add(1)} },
+			func(hctx context.Context, d *c11StepData, _ any) (string, any) {
+				mu.Lock()
+				saw[c11Run(hctx)] = append(saw[c11Run(hctx)], d.token)
+				bad := badOutput
+				mu.Unlock()
+				if bad {
+					return "undeclared", map[string]any{"n": int64(1)}
+				}
+				return "done", map[string]any{"n": int64(1)}
+			})
+		pl := schema.NewCallableSchema(step)
+		ctxOf := func(run string) context.Context { return context.WithValue(context.Background(), c11RunKey{}, run) }
+		good := map[string]any{"n": int64(1)}
+		run := "r"
+		var unexpected []string
+		must := func(what string, err error, wantErr bool) {
+			if (err != nil) != wantErr {
+				unexpected = append(unexpected, fmt.Sprintf("%s: error=%v", what, err))
+			}
+		}
+		c.Note(fmt.Sprintf("refused calls between signals and step: sequence %d %v", si, seq))
+		if p, site, msg, _ := wk.Guard(func() {
+			must("first signal", pl.CallSignal(ctxOf(run), run, "work", "note", cmpx.DeepCopy(good)), false)
+			for _, k := range seq {
+				switch refusals[k] {
+				case "step: wire input rejected":
+					_, _, err := pl.CallStep(ctxOf(run), run, "work", map[string]any{"n": "not a number"})
+					must(refusals[k], err, true)
+				case "step.Call: native input rejected":
+					_, _, err := step.Call(ctxOf(run), run, map[string]any{"n": "not a number"})
+					must(refusals[k], err, true)
+				case "step.Call: nil input":
+					_, _, err := step.Call(ctxOf(run), run, nil)
+					must(refusals[k], err, true)
+				case "signal: data rejected":
+					must(refusals[k], pl.CallSignal(ctxOf(run), run, "work", "note", map[string]any{}), true)
+				case "signal: unknown id":
+					must(refusals[k], pl.CallSignal(ctxOf(run), run, "work", "nope", cmpx.DeepCopy(good)), true)
+				case "step: unknown id":
+					_, _, err := pl.CallStep(ctxOf(run), run, "nope", cmpx.DeepCopy(good))
+					must(refusals[k], err, true)
+				default:
+					mu.Lock()
+					badOutput = true
+					mu.Unlock()
+					_, _, err := pl.CallStep(ctxOf(run), run, "work", cmpx.DeepCopy(good))
+					mu.Lock()
+					badOutput = false
+					mu.Unlock()
+					must(refusals[k], err, true)
+				}
+				must("signal after "+refusals[k], pl.CallSignal(ctxOf(run), run, "work", "note", cmpx.DeepCopy(good)), false)
+			}
+			_, _, err := pl.CallStep(ctxOf(run), run, "work", cmpx.DeepCopy(good))
+			must("the valid step call", err, false)
+			must("last signal", pl.CallSignal(ctxOf(run), run, "work", "note", cmpx.DeepCopy(good)), false)
+		}); p {
+			c.Violation("C11:panic:refused-between:"+site, "a call panicked in a sequence of refused calls: "+msg, map[string]any{"sequence": seq})
+			continue
+		}
+		c.Count("refused_between_sequences")
+		c.CountN("calls", int64(3+2*len(seq)))
+		c.Eval(wk.Hash64("refused-between", fmt.Sprint(seq)), true)
+		names := []string{}
+		for _, k := range seq {
+			names = append(names, refusals[k])
+		}
+		mu.Lock()
+		wit := map[string]any{"refused_calls": names, "step_data_seen_by_the_run": saw[run], "initialiser_ran": inits.Load()}
+		tokens := map[int64]bool{}
+		for _, t := range saw[run] {
+			tokens[t] = true
+		}
+		mu.Unlock()
+		if len(unexpected) > 0 {
+			wit["unexpected"] = unexpected
+			c.Violation("C11:refused-between:wrong-verdict", fmt.Sprintf("in a sequence of refused calls a call that must fail succeeded or one that must succeed failed: %v", unexpected), wit)
+			continue
+		}
+		if len(tokens) != 1 || inits.Load() != 1 {
+			c.Violation("C11:step-data-created-more-than-once-per-run:after-refused-calls", fmt.Sprintf("one run ID, refused calls %v between its signals and its step: the handlers saw step data %v, the initialiser ran %d times", names, saw[run], inits.Load()), wit)
+		}
 	}
 }
 
